@@ -95,7 +95,9 @@ def run(chk):
     tp = gen.two_pool_scenarios(rng, 40 if chk.tier == 'quick' else 600)
     run_scenarios(chk, 'two pools at work in one process: every call of either terminates', tp, {'C03'}, nontrivial=lambda sc, o: True,
                   dist=lambda sc, o: {'other_lifespan': sc['ops'][0]['lifespan'], 'first_pool_stopped_meanwhile': any(x['op'] in ('stop_and_join', 'terminate') for x in sc['ops'])})
-    chk.assumptions += ['pipe capacity and feeder threads of multiprocessing.Queue are not modelled (DetSim queues are unbounded); OS scheduling fairness is assumed',
+    from harness import realproc
+    realproc.pipe_suite(chk, quick=chk.tier != 'thorough')
+    chk.assumptions += ['pipe capacity and feeder threads of multiprocessing.Queue are not modelled (DetSim queues are unbounded): payloads above the pipe capacity are explored on real processes (four probes in the quick tier, a matrix in the thorough tier); OS scheduling fairness is assumed',
                         'user functions terminate; unpicklable payloads are excluded by the property']
 
     def search():
